@@ -281,7 +281,7 @@ macro_rules! conv_err {
                 I::IoError(e) => Outcome::Io {
                     kind: e.kind(),
                     msg: e.to_string(),
-                    payload: crate::source::payload_of(&e),
+                    payload: crate::source::payload_of(&e).or(crate::source::lib_payload_of(&e).map(|c| usize::MAX - (-c) as usize)),
                 },
             }
         }
@@ -301,7 +301,7 @@ fn conv_btor2(e: flussab_btor2::ParseError) -> Outcome {
         I::IoError(e) => Outcome::Io {
             kind: e.kind(),
             msg: e.to_string(),
-            payload: crate::source::payload_of(&e),
+            payload: crate::source::payload_of(&e).or(crate::source::lib_payload_of(&e).map(|c| usize::MAX - (-c) as usize)),
         },
     }
 }
@@ -340,6 +340,11 @@ fn make_reader<'a, R: Read + 'a>(via: &Via, chunk: &Option<usize>, src: R, pre: 
         // the caller read a prefix of the stream through the reader before handing it to the
         // parser (a container format, a magic number, ...)
         let mut left = pre;
+        if pre % 2 == 1 {
+            // sniffing: the caller first asked for much more than the prefix (and possibly than
+            // the source has: the reader may then already be complete, with an error parked)
+            let _ = r.request(pre + 512);
+        }
         while left > 0 {
             let n = r.request(left.min(7)).len().min(left);
             if n == 0 {
